@@ -60,7 +60,7 @@ PROPS_EXTRA['C15'] = {'assumptions': ['bytes / UTF-16 units modelled as Nat; the
  'correspondences': ['mem: every public convert_*/copy_*/ensure_*/decode_latin1/encode_latin1_lossy function of mem.rs: impl (read, written, dst[..written] | '
                      'none | panic) = Model.Mem.* on every generated (source, destination length)'],
  'generated': ['Gen.TablesMisc (UTF8_DATA.table used by the UTF-8 -> UTF-16 converters)'],
- 'harness_cfgs': ['default'],
+ 'harness_cfgs': ['default', 'simd'],
  'partial': ["'bytes beyond written are left unmodified' (doc of convert_utf16_to_utf8_partial) is not a theorem: the model abstracts the destination to "
              'capacity + written prefix; it is checked on the implementation by the guard-band oracle on every generated call (default build: no violation; '
              'simd-accel build: finding F5)',
